@@ -47,7 +47,7 @@ Definition nonnormal (r : asig * astate) : bool := match fst r with ANormal => f
 
 Fixpoint an (opt : label -> oclass) (p : prog) (cx : xc) (a : astate) {struct p} : ares :=
   match p with
-  | Skip | SetFlag _ _ | LoadNames _ => [(ANormal, a)]
+  | Skip | SetFlag _ _ | Collect _ | LoadNames => [(ANormal, a)]
   | Ret => [(AReturn, a)]
   | Raise x => [(ARaise x, a)]
   | Reraise => [(ARaise cx, a)]
@@ -104,13 +104,13 @@ Definition only_nsp (r : asig * astate) : bool :=
 Definition gone_guarded (opt : label -> oclass) (p : prog) : bool :=
   forallb only_nsp (an opt p XPy (true, false)).
 
-(* calls that also query OTHER Process objects (parent, children): psutil errors of those are tolerated,
+(* calls that also query OTHER Process objects (parent, parents, children): as [ok_end] for errors carrying the
+   object's own pid; NoSuchProcess / ZombieProcess / AccessDenied carrying the other process's pid are tolerated;
    bare errors are not *)
 Definition ok_end_tree (r : asig * astate) : bool :=
   match r with
-  | (ANormal, _) | (AReturn, _) => true
-  | (ARaise (XNSP _), _) | (ARaise (XZombie _), _) | (ARaise (XAD _), _) => true
-  | _ => false
+  | (ARaise (XNSP Other), _) | (ARaise (XZombie Other), _) | (ARaise (XAD Other), _) => true
+  | _ => ok_end r
   end.
 Definition tree_guarded (opt : label -> oclass) (p : prog) : bool :=
   forallb ok_end_tree (an opt p XPy (false, false)) && forallb ok_end_tree (an opt p XPy (true, false)).
